@@ -62,6 +62,10 @@ func aliasClosure(v ssa.Value, r *ownRules) valueSet {
 				push(y)
 			case *ssa.Phi:
 				push(y)
+			case *ssa.Slice:
+				if y.X == x {
+					push(y) // re-slicing shares the backing array
+				}
 			case *ssa.Extract:
 				// (v, ok) := x.(T)
 				if _, isTA := y.Tuple.(*ssa.TypeAssert); isTA && y.Index == 0 {
